@@ -65,8 +65,12 @@ def run_check(pid, tier, seed, plan=None):
     design_futs = [ex.submit(run_design, kw) for kw in design]
 
     # 2. conformance: histories on the real library, judged by TLC against the trace specification
+    tt = time.time()
     jobs = plan.plan_jobs(pid, tier, rng)
+    t_plan = time.time() - tt
+    tt = time.time()
     traces = validate.record_all(jobs)
+    t_rec = time.time() - tt
     byid = {j["id"]: j for j in jobs}
     for tr in traces:
         j = byid[tr["id"]]
@@ -167,6 +171,8 @@ def run_check(pid, tier, seed, plan=None):
         for e in machinery_errors:
             sys.stderr.write("MACHINERY ERROR: %s\n" % e)
         return 2
-    print("%s %s: %d traces, %d events, %d states; %d violation(s), %d known finding(s); %.0fs" % (
-        pid, tier, len(traces), nevents, states, nviol, len(known_seen), wall))
+    print("%s %s: %d traces, %d events, %d states; %d violation(s), %d known finding(s); %.0fs "
+          "(plan %.0fs, record %.0fs, validate %.0fs, design %s)" % (
+              pid, tier, len(traces), nevents, states, nviol, len(known_seen), wall, t_plan, t_rec, val["wall"],
+              "+".join("%.0f" % x["wall_s"] for x in design_info)))
     return 1 if nviol else 0
